@@ -79,6 +79,31 @@ fn main() {
         "pexec-range" => pexec::main_pexec_range(rest),
         "xexec" => xexec::main_xexec(rest),
         "zexec" => zexec::main_zexec(rest),
+        // zstd frames for the independent builder (CPython has no zstd codec): one JSON object per input line
+        // {"chunks": [hex...], "level": n, "skippable": bool} -> one line of hex: every chunk compressed as its own frame by the
+        // zstd crate (trusted codec; no zip-crate code involved), optionally with a skippable frame in between
+        "zstdc" => {
+            use std::io::BufRead;
+            let stdin = std::io::stdin();
+            for line in stdin.lock().lines() {
+                let line = line.expect("stdin");
+                if line.trim().is_empty() {
+                    continue;
+                }
+                let v: serde_json::Value = serde_json::from_str(&line).expect("json");
+                let level = v["level"].as_i64().unwrap_or(3) as i32;
+                let mut out: Vec<u8> = vec![];
+                for (k, c) in v["chunks"].as_array().cloned().unwrap_or_default().iter().enumerate() {
+                    if k > 0 && v["skippable"].as_bool().unwrap_or(false) {
+                        out.extend_from_slice(&[0x50, 0x2A, 0x4D, 0x18, 3, 0, 0, 0, b's', b'k', b'p']);
+                    }
+                    let raw = util::unhex(c.as_str().unwrap_or(""));
+                    out.extend_from_slice(&zstd::stream::encode_all(&raw[..], level).expect("zstd"));
+                }
+                println!("{}", out.iter().map(|b| format!("{:02x}", b)).collect::<String>());
+            }
+            0
+        }
         "lex" => {
             let b = std::fs::read(&rest[0]).expect("read");
             let o = lexer::LexOpts { allow_trailing: true, ..Default::default() };
